@@ -450,8 +450,14 @@ class SignalNamespace:
         n = self.sigs.get(sig)
         if n is None:
             n = self.counts.get(sig_name, 0)
+            # Skip the numbers whose suffixed name is already used (ex: a signal named x_1 and a second signal named x).
+            while (n > 0) and ((sig_name + f"_{n}") in self.counts):
+                n += 1
             self.sigs[sig] = n
             self.counts[sig_name] = n + 1
+            # Reserve the suffixed name, so that a signal later named x_1 gets its own suffix.
+            if n > 0:
+                self.counts[sig_name + f"_{n}"] = 1
         # If the count is greater than 0, append it to the signal name.
         if n > 0:
             sig_name += f"_{n}"
